@@ -67,6 +67,7 @@ trait CoreObj {
     fn clone_box(&self) -> Option<Box<dyn CoreObj>>;
     fn debug(&self) -> String;
     fn algname(&self) -> String;
+    fn dropprobe(self: Box<Self>, secrets: &[Vec<u8>]) -> Res;
 }
 trait WrapObj {
     fn apply(&mut self, a: &[String], rs: &[Res]) -> Res;
@@ -76,6 +77,7 @@ trait WrapObj {
     fn core(&self) -> Option<Box<dyn CoreObj>>;
     fn clone_box(&self) -> Option<Box<dyn WrapObj>>;
     fn debug(&self) -> String;
+    fn dropprobe(self: Box<Self>, secrets: &[Vec<u8>]) -> Res;
 }
 
 fn to_blocks<T: BlockSizeUser>(d: &[u8]) -> Option<Vec<Block<T>>> {
@@ -260,6 +262,9 @@ where
     fn debug(&self) -> String {
         format!("{:?}", self.0)
     }
+    fn dropprobe(self: Box<Self>, secrets: &[Vec<u8>]) -> Res {
+        drop_probe(self.0, secrets)
+    }
     fn algname(&self) -> String {
         format!("{}", NameOf::<T>(core::marker::PhantomData))
     }
@@ -290,6 +295,9 @@ where
     }
     fn debug(&self) -> String {
         format!("{:?}", self.0)
+    }
+    fn dropprobe(self: Box<Self>, secrets: &[Vec<u8>]) -> Res {
+        drop_probe(self.0, secrets)
     }
 }
 
@@ -332,6 +340,9 @@ where
     fn debug(&self) -> String {
         format!("{:?}", self.0)
     }
+    fn dropprobe(self: Box<Self>, secrets: &[Vec<u8>]) -> Res {
+        drop_probe(self.0, secrets)
+    }
     fn algname(&self) -> String {
         format!("{}", NameOf::<T>(core::marker::PhantomData))
     }
@@ -361,6 +372,9 @@ where
     }
     fn debug(&self) -> String {
         format!("{:?}", self.0)
+    }
+    fn dropprobe(self: Box<Self>, secrets: &[Vec<u8>]) -> Res {
+        drop_probe(self.0, secrets)
     }
 }
 
@@ -595,6 +609,14 @@ fn step(objs: &mut HashMap<String, Obj>, op: &[String], rs: &[Res], fac: Factory
             Some(Obj::Core(c)) => c.setpos(op[2].parse().unwrap()),
             _ => Res::Unsupported,
         },
+        "dropprobe" => {
+            let secrets: Vec<Vec<u8>> = op[2..].iter().map(|t| data(t, rs)).collect();
+            match objs.remove(&op[1]) {
+                Some(Obj::Core(c)) => c.dropprobe(&secrets),
+                Some(Obj::Wrap(w)) => w.dropprobe(&secrets),
+                None => Res::Unsupported,
+            }
+        }
         "debug" => match objs.get(&op[1]) {
             Some(Obj::Core(c)) => Res::Text(c.debug()),
             Some(Obj::Wrap(w)) => Res::Text(w.debug()),
